@@ -201,10 +201,26 @@ func TestLen(t *testing.T) {
 			c.S = string(gen.PrintSchema(m, st))
 			rootContainer = (m.Kind == ref.SObj || m.Kind == ref.SArr) && m.End > m.Begin+1
 			rootBegin, rootEnd = m.Begin, m.End
+			if rapid.IntRange(0, 3).Draw(t, "trailingUserComment") == 0 && !endsWithAnnotationOrComment(c.S) {
+				// a user comment after the last value belongs to the schema text (its end is the end of S,
+				// whether a line break or the end of the input closes it)
+				c.S += rapid.SampledFrom([]string{" # c", " #", st.NL + "# end", " ### b ###", " ###" + st.NL + "c" + st.NL + "###", "# c"}).Draw(t, "userComment")
+				run.Label("schema:trailing-user-comment")
+			}
 			if m.Kind != ref.SRef {
 				if r := lib.Check(js.New("s", c.S)); !r.OK {
 					return // S must be an accepted schema
 				}
+			}
+			if rapid.IntRange(0, 19).Draw(t, "brokenAnnotation") == 0 && m.Kind == ref.SLit && len(m.Rules) == 0 && m.Note == "" {
+				// negative: an inline annotation whose rule object is cut by a user comment - the line
+				// ends inside the rule object, nothing lexically complete stands there
+				nc := Case{Kind: "schema", S: m.Tok + rapid.SampledFrom([]string{" // {min: 0 # c", " // {min: 0, # c", " // {# min: 0}", " // {enum: [1, # c"}).Draw(t, "brokenAnn"),
+					Sep: "\n", Tail: rapid.SampledFrom([]string{"}", "}\nGET /x", "2]}", "GET /x"}).Draw(t, "brokenTail"), Cut: true}
+				check(t, nc)
+				run.Eval(chk, true, nc.Kind, nc.S, nc.Tail, "cut")
+				run.Label("negative:schema:annotation-cut-by-a-comment")
+				return
 			}
 		case 2:
 			c.Kind = "json"
